@@ -1,6 +1,6 @@
 (* C03 — @testonly is enforced exactly: non-test uses reported, test code exempt. Statements only. *)
 From Coq Require Import List String ZArith Bool.
-From GG Require Import Base.Strs Model.Config Model.GoAst Model.Annots Model.Analyze Exec
+From GG Require Import Base.Strs Model.Config Model.GoTypes Model.GoAst Model.Annots Model.Analyze Exec
                        Proofs.WalkProofs Proofs.CheckerProofs Properties.C01.
 Import ListNotations.
 Local Open Scope Z_scope.
@@ -77,7 +77,7 @@ Definition ex_tfacts : facts :=
             an_mut := []; an_pkgo := [] |})].
 Definition ex_cfg := {| scan_tests := true; exclude_paths := []; exclude_checks := [] |}.
 Example C03_nonvacuous :
-  let run f sup := map d_pos (x_tonl ex_cfg {| p_path := "a"; p_name := "a"; p_files := [f]; p_imports := [] |} ex_tfacts sup) in
+  let run f sup := map d_pos (x_tonl ex_cfg {| p_path := "a"; p_name := "a"; p_files := [f]; p_imports := []; p_types := empty_typetable |} ex_tfacts sup) in
   run (ex_tfile "a.go") (fun _ _ => false) = [40] /\
   run (ex_tfile "a.go") (fun _ p => Z.eqb p 40) = [50] /\
   run (ex_tfile "a_test.go") (fun _ _ => false) = [].
